@@ -51,7 +51,8 @@ def step_strategy(draw, nd):
             "translate-length", "translate-str", "translate-none", "rot-same-axis", "rot-unknown-axis",
             "rot-float-k", "scale-ref-length", "rot-ref-length",
             "scale-collapse", "scale-collapse", "scale-collapse-axis", "scale-collapse-axis",
-            "rot-k-whole-float", "rot-k-whole-float", "rot-k-numpy-int"]
+            "rot-k-whole-float", "rot-k-whole-float", "rot-k-numpy-int",
+            "rot-one-axis-unmapped", "rot-one-axis-unmapped", "rot-one-axis-unmapped"]
     # spread through a hashed wide integer: Hypothesis' sampled_from clusters on a few list positions per run
     bad = bads[(((draw(st.integers(0, 2**32)) + 977) * 0x9E3779B97F4A7C15) % 2**64 >> 16) % len(bads)]
     if bad.startswith("rot-k-"):
@@ -237,6 +238,17 @@ def bad_call(obj_kind, x, step, inplace):
     dims = r.dims
     tgt = x.mesh if obj_kind == "field" else x
     ip = True if obj_kind == "field" and not bad.startswith("rot") else inplace
+    if bad == "rot-one-axis-unmapped":
+        # a vector field one of whose two rotation-plane axes has no component: refused, object untouched
+        if obj_kind != "field" or x.nvdim < 2 or nd < 2 or len(x.vdim_mapping) < 2:
+            raise ValueError("not applicable to this object")  # counts as a refusal without modification
+        old = dict(x.vdim_mapping)
+        gone = dims[ax % 2]
+        x.vdim_mapping = {lab: (None if a == gone else a) for lab, a in old.items()}
+        try:
+            return x.rotate90(dims[0], dims[1], inplace=inplace)
+        finally:
+            x.vdim_mapping = old
     if bad == "scale-zero":
         return tgt.scale(0, inplace=ip)
     if bad == "scale-zero-axis":
